@@ -36,10 +36,12 @@ class PostOrderIterator(Iterator[Block]):
             self.stack.append((block, True))
             term = block.last_op
             if isinstance(term, Operation) and term.has_trait(IsTerminator()):
-                self.stack.extend(
-                    (x, False) for x in reversed(term.successors) if x not in self.seen
-                )
-                self.seen.update(term.successors)
+                # Mark successors as seen while pushing them, so that a block that
+                # appears several times in the successor list is only pushed once.
+                for x in reversed(term.successors):
+                    if x not in self.seen:
+                        self.seen.add(x)
+                        self.stack.append((x, False))
             # stack cannot be empty here
             (block, visited) = self.stack.pop()
         return block
